@@ -184,6 +184,11 @@ func RunWorker(a WorkerArgs) int {
 		_ = pf.Truncate(int64(len(b) + 1))
 		touchWatchdog()
 		caseSerial.Add(1)
+		if os.Getenv("VERIF_SELFTEST_FAKE_HANG") == c.Key() && a.Only == "" {
+			// self-test of the confirmation path: the watchdog "fires" at this case in the shard, not in the fresh process
+			fmt.Fprintf(os.Stderr, "\nVERIF-HANG: case used more than %d CPU seconds (self-test)\n", CaseCPUCapSeconds)
+			os.Exit(ExitHang)
+		}
 		t.cur = c
 		res.Counters["cases"]++
 		f.Eval(t, c)
